@@ -154,4 +154,24 @@ PROPS = {
                         "LRU eviction of the MemoryStore (capacity 1000 in the harness) is not modelled: an evicted flow behaves as collected (not found)",
                         "two polls racing on the same flow may both deliver (outside 'once the answer has been collected'); handlers are compared sequentially"],
     },
+    "C13": {
+        "obligation_files": ["Properties/C13.v"],
+        "model_files": ['Model/BundleM.v', 'Model/BundleOps.v', 'Corr/Transport.v', 'Proofs/CacheProofs.v', 'Corr/RunB.v'],
+        "rule": "stream bundle-hist: headers assembled in random order from a pool of valid, attenuated, undischarged (one and two third parties), wrongly-keyed, unknown-key-id and foreign-location permission tokens, genuine / extraneous / wrongly-signed discharges, non-macaroon and malformed entries (incl. empty elements); histories of 4-12 operations from "
+                "{ParseBundle, ParseBundleWithFilter(KeepAll), AddTokens, Select/Filter with 8 predicates, Verify with a KeyResolver, Validate (3 requests), Header, Len, Count (predicate and non-predicate filters), Attenuate (3 caveat lists incl. a duplicate), Discharge for either third party with the right or a wrong key, Clone, UndischargedThirdPartyTickets}; "
+                "the model's verification / clearing / attenuation tables are filled by DIRECT calls (macaroon.Decode+Verify with all discharges of the bundle, CaveatSet.Validate, Decode+Add+String) outside the bundle; implementation-side oracle: after Verify the bundle clears a request iff one of the returned verified sets clears it, and Header() = 'FlyV1 ' + tokens joined in order; "
+                "non-trivial = at least one direct verification was recorded",
+        "assumptions": ["derived bundles (Select) share token objects with their parent by design; scenarios only read derived bundles (object sharing is not modelled)",
+                        "the tokeniser (header string -> typed entries) is C19's model; here entries arrive already typed by the real tokeniser",
+                        "map iteration order over third-party locations inside Verify is arbitrary in Go; the model uses caveat order (irrelevant to the result by the C04 theorems)"],
+    },
+    "C14": {
+        "obligation_files": ["Properties/C14.v"],
+        "model_files": ['Model/BundleM.v', 'Model/BundleOps.v', 'Corr/Transport.v', 'Proofs/CacheProofs.v', 'Corr/RunB.v'],
+        "rule": "stream cache-hist: as bundle-hist but every Verify goes through one VerificationCache shared by all bundles of the scenario (capacity 1, 2 or 8; TTL +1 h or -1 h = always expired), headers are re-used across bundles (hits, former aliasing F7a), Attenuate between verifications; observable adds the inner verifier's call log (which tokens missed the cache); "
+                "each case also evaluates key_sound_list on the recorded direct-verification table for the queries the scenario makes (hypothesis of run_transparent_check); one dedicated case reproduces known finding F7b on every run; non-trivial = at least one direct verification was recorded",
+        "assumptions": ["with capacity < 8 bundles hold one permission token (Go iterates dissByPerm in map order, which makes LRU recency of several simultaneous lookups arbitrary)",
+                        "TTL is modelled as live / always-expired; real-time expiry inside a scenario is not exercised in the quick tier",
+                        "known finding F7b (two distinct valid discharges for one ticket in non-sorted order) is excluded by the key-soundness hypothesis and reported as KNOWN-FINDING"],
+    },
 }
